@@ -266,3 +266,15 @@ Proof.
   - apply (bool_decide_unpack _). by vm_compute.
   - apply (bool_decide_unpack _). by vm_compute.
 Qed.
+
+(** reachable states satisfy the well-formedness predicate of the
+    reset_remove laws (proofs/Reset.v) *)
+From Crdt Require Import proofs.Reset.
+Lemma orswot_reach_wf H s K : ohist_ok H → oreach H s K → orswot_wf s.
+Proof.
+  intros Hok Hr. pose proof (ohist_ok_wf H Hok) as HH.
+  destruct (orswot_reach_spec _ _ _ HH Hr) as [-> _]. split_and!.
+  - apply ospec_clock_vwf.
+  - intros m e He. by destruct (ospec_entry_inv _ _ _ _ He) as (? & ? & ?).
+  - intros k ms Hk. by destruct (ospec_deferred_inv _ _ _ _ HH Hk) as (? & ? & _).
+Qed.
